@@ -15,7 +15,7 @@ PROPERTY = "C03"
 LEVEL = "exploration"
 RULE = (
     "a LASFile is built through the public API; one section (~Version extras, ~Well, ~Curves, ~Parameter) receives a "
-    "generated item list: every single item of the product mnemonic(7) x unit(9) x value(14) x description(6) allowed "
+    "generated item list: every single item of the product mnemonic(7) x unit(11) x value(14) x description(6) allowed "
     "by the statement's conformance clause, every ordered pair over a 36-kind palette (so each kind is in turn the "
     "widest of its section and next to empty-unit/empty-value neighbours), thorough: every ordered triple over a "
     "12-kind palette; ~Other variants; written as 1.2 and 2.0, read back with mnemonic_case preserve/upper/lower, and the re-read object written and read once more (same version and case); for pairs the original object is then edited in place (fields of the two items exchanged) and written again, and a narrow twin of the point is written, grown in place to the point's fields and written again; before the first point the process reads many other files (process prelude); "
@@ -31,7 +31,7 @@ ASSUMPTIONS = [
 ]
 
 MNEMS = ["A", "LONGMNEMONIC12", "A B", "Å1", "", "<dup>", "NULL"]
-UNITS = ["", "m", "K/M3", "hh:mm", "ft.lbf", "°C", "LONGUNIT123", "1/32", "10^3"]
+UNITS = ["", "m", "K/M3", "hh:mm", "ft.lbf", "°C", "LONGUNIT123", "1/32", "10^3", "m(TVD)", "[ref]m"]
 VALUES = ["", "x", "a b", "it's", "(b) c", "[b]", 12, -1.5, "1e3", 35.5, 7, "a value text 25 chars long", "rev 4,1-b", ("a remark of ninety characters " * 4)[:90].strip()]
 DESCRS = ["", "d", "a b", "(x) y", "2 d", "a thirty character description.."[:30], "see remark 2..4", "to be continued.."]
 SECTIONS = ["Version", "Well", "Curves", "Parameter"]
@@ -225,6 +225,17 @@ def check_point(pt):
     vio = compare(pt, before, after, text, V, "")
     if vio:
         return vio[:3], nontriv, "ok", {}, 2
+    # the same text read with the other two mnemonic_case options, and once more with this point's: each read maps the
+    # mnemonics by its own case function only (nothing sticks from a read with another option)
+    others = [c for c in ("upper", "preserve", "lower") if c != pt["case"]]
+    for oc in others + [pt["case"]]:
+        try:
+            bo = lasio.read(text, mnemonic_case=oc)
+        except Exception as e:
+            return [V("read-raises", "own output readable (mnemonic_case=%s)" % oc, "%s: %s" % (type(e).__name__, str(e)[:160]), text)], nontriv, "ok", {}, 3
+        vio = compare(dict(pt, case=oc), before, snapshot(bo), text, V, "other-case-read(%s):" % oc)
+        if vio:
+            return vio[:3], nontriv, "ok", {}, 3
     # second stage: the object that came out of read() is itself a LASFile with conformant fields -
     # writing and reading it again (same version, same case) must return the same items once more
     try:
